@@ -617,7 +617,27 @@ def run_main(main):
         sys.exit(EXIT_INFRA)
     except SystemExit:
         raise
-    except Exception:
+    except Exception as e:
+        # an exception raised inside the library (innermost frame under <repo>/src) where the harness expects none:
+        # the code under test misbehaves on an input the registered tree handles; anything else is a harness problem
+        tb = traceback.extract_tb(e.__traceback__)
+        lib = os.path.join(os.environ.get("VERIF_REPO", "/repo"), "src") + os.sep
+        if tb and os.path.abspath(tb[-1].filename).startswith(os.path.abspath(lib)):
+            os.makedirs(os.path.join(VERIF, "replays"), exist_ok=True)
+            rel = "replays/%s-libexc.json" % prop
+            infl = None
+            try:
+                infl = json.load(open(_inflight_path(os.getpid())))
+            except Exception:
+                pass
+            json.dump({"property": prop, "kind": "library-exception", "tier": tier, "exception": "%s: %s" % (type(e).__name__, str(e)[:300]),
+                       "raised_at": "%s:%d in %s" % (tb[-1].filename, tb[-1].lineno, tb[-1].name),
+                       "traceback": traceback.format_exc()[-2500:], "in_flight": infl,
+                       "note": "the library raised where the check expects a result (the registered tree returns one for the same input)"},
+                      open(os.path.join(VERIF, rel), "w"), indent=1, default=str)
+            print("VIOLATION property=%s replay=%s%s" % (prop, rel, "" if infl else " no-failing-input-found"))
+            clear_inflight()
+            sys.exit(EXIT_VIOLATION)
         print("INFRA-ERROR: unexpected harness exception\n" + traceback.format_exc()[-1500:])
         sys.exit(EXIT_INFRA)
 
